@@ -45,12 +45,16 @@ structure Coh (c : List Block) (d : Disk) : Prop where
 def Fresh (d : Disk) (b : Block) : Prop :=
   d (.numByHash b.hash) = none ∧ (∀ t ∈ b.txs, d (.txLookup t) = none) ∧ b.txs.Nodup
 
-/-- Histories whose stored blocks are fresh at the time they are offered. -/
+/-- The offered block passes `verifyBlockSuccession` on this disk (number and parent). -/
+def Extends (d : Disk) (b : Block) : Prop := expectedNext d = (b.num, b.parent)
+
+/-- Histories in which every block that EXTENDS the head when it is offered is fresh. Offers the
+node must refuse (a block it already holds, an orphan, a gap) are unrestricted. -/
 def ValidHist (W : Nat) (fx : Fixes) : Node → List (Op × Fault) → Prop
   | _, [] => True
   | n, (op, ft) :: rest =>
     (match op with
-      | .store b => Fresh n.disk b
+      | .store b => Extends n.disk b → Fresh n.disk b
       | .prune _ => False
       | _ => True) ∧ ValidHist W fx (exec W fx n op ft).1 rest
 
